@@ -460,7 +460,10 @@ def fortran_modules(p: Project) -> None:
     L = head(p, ['fortran'])
     L.append(f"gsrc = custom_target('gensrc', input: 'genpart.f90.in', output: 'genpart.f90', {COPY})")
     L.append("flib = static_library('flib', 'libmod.f90')")
-    L.append("exe = executable('fexe', 'main.f90', 'moda.f90', 'selfuse.f90', gsrc, link_with: flib)")
+    # a module that reaches the executable only THROUGH a shared library (exe -> shared -> static provider) and is used directly
+    L.append("ffar = static_library('ffar', 'farmod.f90', pic: true)")
+    L.append("fsh = shared_library('fsh', 'shmod.f90', link_with: ffar)")
+    L.append("exe = executable('fexe', 'main.f90', 'moda.f90', 'selfuse.f90', gsrc, link_with: [flib, fsh])")
     L.append("test('fexe', exe)")
     if legacy:
         # the module scanner of the older path cannot see generated sources (documented FIXME): the generated file
@@ -470,9 +473,12 @@ def fortran_modules(p: Project) -> None:
     else:
         p.files['genpart.f90.in'] = 'module genpart\n  implicit none\ncontains\n  integer function gen_value()\n    gen_value = 3\n  end function\nend module genpart\n'
         use_gen, decl_gen = '  use genpart\n', ''
-    p.files['main.f90'] = ('program main\n  use moda\n  use libmod\n' + use_gen + '  implicit none\n' + decl_gen +
+    p.files['farmod.f90'] = 'module farmod\n  implicit none\ncontains\n  integer function far_value()\n    far_value = 0\n  end function\nend module farmod\n'
+    p.files['shmod.f90'] = ('module shmod\n  use farmod\n  implicit none\ncontains\n  integer function sh_value()\n    sh_value = far_value()\n  end function\n'
+                            'end module shmod\n')
+    p.files['main.f90'] = ('program main\n  use moda\n  use libmod\n  use farmod\n' + use_gen + '  implicit none\n' + decl_gen +
                            '  integer, external :: use_self\n'
-                           '  if (a_value() + lib_value() + gen_value() + use_self() /= 6) stop 1\nend program main\n')
+                           '  if (a_value() + lib_value() + gen_value() + use_self() + far_value() /= 6) stop 1\nend program main\n')
     # a file that defines a module AND uses it itself (the object must not be made to wait for its own module)
     p.files['selfuse.f90'] = ('module selfmod\n  implicit none\ncontains\n  integer function self_value()\n    self_value = 0\n  end function\n'
                               'end module selfmod\n\ninteger function use_self()\n  use selfmod\n  implicit none\n  use_self = self_value()\n'
@@ -480,7 +486,7 @@ def fortran_modules(p: Project) -> None:
     p.files['moda.f90'] = 'module moda\n  implicit none\ncontains\n  integer function a_value()\n    a_value = 1\n  end function\nend module moda\n'
     p.files['libmod.f90'] = 'module libmod\n  implicit none\ncontains\n  integer function lib_value()\n    lib_value = 2\n  end function\nend module libmod\n'
     p.files['meson.build'] = '\n'.join(L) + '\n'
-    p.expect = [('fexe', 'all'), ('libflib.a', 'all'), ('fexe', 'meson-test-prereq')]
+    p.expect = [('fexe', 'all'), ('libflib.a', 'all'), ('libfsh.so', 'all'), ('fexe', 'meson-test-prereq')]
 
 
 @entry('fortran-c-mixed', ['gfortran', 'gcc'], [{'ninja': 'dyndep', 'layout': 'mirror'}], {'ninja': ['dyndep', 'legacy'], 'layout': LAYOUT, 'unity': UNITY},
